@@ -443,8 +443,15 @@ func runC10(env *core.Env) {
 	// failures caused by the environment: EIO injected into every system call on a store file
 	faultCov := failUnchangedPhase(env, "C10", rich.Store, c10FaultCmds(rich))
 	shortCov := shortWritePhase(env, "C10", rich.Store, c10FaultCmds(rich))
+	// the same on a store that has no log file yet (the first write creates it)
+	noLog := core.Store{"D:.ergo": nil, ".ergo/lock": {}}
+	shortCovNoLog := shortWritePhase(env, "C10", noLog, []crashCmd{
+		{"new-task-first", core.R("", "--json", "new", "task").In(`{"title":"first","claim":"ag"}`)},
+		{"plan-first", core.R("", "--json", "plan").In(`{"title":"P","tasks":[{"title":"a"},{"title":"b","after":["a"]}]}`)},
+		{"new-epic-first", core.R("", "--json", "new", "epic").In(`{"title":"first epic","body":"b"}`)},
+	})
 	env.Finish("model_checking", map[string]interface{}{
-		"concurrent": concCov, "io_error_phase": faultCov, "short_write_phase": shortCov,
+		"concurrent": concCov, "io_error_phase": faultCov, "short_write_phase": shortCov, "short_write_phase_no_log_file": shortCovNoLog,
 		"states": len(pres), "transitions": evals, "traces_validated_against_impl": validated,
 		"evaluations": evals, "distinct_nontrivial": distinct.len(),
 		"rule":       "cross product (command, field subset of {title,body,epic,state,claim,result} up to pairs + mixed triples, every value incl. poisoned ones, 10 targets incl. pruned/unknown ids, 3 input modes; all sequence pairs/triples over 8 ids; plan rejection catalogue; usage errors; every mutating command under a held flock) x pre-states; non-trivial = exits non-zero; distinct = (command family, error class)",
